@@ -51,9 +51,12 @@ def observe(V, F):
     vmap = {tuple(v): i for i, v in enumerate(p.vertices)}
     tris = [[vmap[tuple(v)] for v in tri] for tri in p._surface_triangulation()]
     fa = np.array(p.get_face_area(), float)
-    return dict(volume=float(p.volume), surface_area=float(p.surface_area),
-                face_areas=fa, face_area_forms=C.face_area_forms(p, fa), centroid=np.array(p.centroid, float),
-                inertia=np.array(p.inertia_tensor, float), tris=tris, vertices=np.array(p.vertices, float))
+    o = dict(volume=float(p.volume), surface_area=float(p.surface_area),
+             face_areas=fa, face_area_forms=C.face_area_forms(p, fa), centroid=np.array(p.centroid, float),
+             inertia=np.array(p.inertia_tensor, float), tris=tris, vertices=np.array(p.vertices, float))
+    # (last: this resizes p) the measures are those of the solid as it is now, also when they were asked for before a resize
+    o["after_resize"] = C.resize_probe(p, lambda s_: coxeter.shapes.Polyhedron(np.array(s_.vertices), [np.array(f) for f in s_.faces]))
+    return o
 
 
 def run(chk):
@@ -147,6 +150,8 @@ def run(chk):
         cmp("face_areas", o["face_areas"], areas, R ** 2)
         for prob in o.get("face_area_forms", []):
             chk.violation("get_face_area-call-forms", dict(desc, what=prob)); break
+        for prob in o.get("after_resize", []):
+            chk.violation("measures-stale-after-resize", dict(desc, what=prob)); break
         cmp("surface_area", o["surface_area"], sum(areas), R ** 2)
         cmp("centroid", o["centroid"], cen_s, max(R, R ** 4 / max(abs(vol_s), 1e-300)))
         cmp("inertia_tensor", C.sym6(o["inertia"]), I_s, R ** 5)
